@@ -176,7 +176,7 @@ class C03Requests(Monitor):
                     told = [e["instruction_type"] for e in _events(events, "INSTRUCTION") if e["vehicle_id"] == v.id]
                     bv = before.vehicles.get(v.id)
                     was_carrying = bv is not None and sname(bv) == "ServicingTrip" and len(bv.vehicle_state.route) > 0
-                    if told and was_carrying and "OutOfServiceInstruction" in told:
+                    if told and was_carrying and "OutOfServiceInstruction" in told and h.oos_instruction_accepted(mid, v.id):
                         yield Violation("C03", "an instruction took a vehicle that is carrying passengers out of service", {"request": rid, "vehicle": v.id, "instruction": told})
                     self.state[rid] = "stranded:" + v.id
                     h.flag("stranded")
@@ -515,7 +515,8 @@ class C07Location(Monitor):
             if v is not None and tgt is not None and tgt.geoid != v.geoid and e["instruction_type"] in ("ChargeStationInstruction", "ChargeBaseInstruction", "ReserveBaseInstruction"):
                 h.flag("stationary_instruction_remote_target")
         yield from self.check_state(after, "after step")
-        told_oos = {e["vehicle_id"] for e in _events(events, "INSTRUCTION") if e["instruction_type"] == "OutOfServiceInstruction"}
+        # (INSTRUCTION reports list selected instructions, accepted or not: a refused one does not make the stranding the controller's doing)
+        told_oos = {e["vehicle_id"] for e in _events(events, "INSTRUCTION") if e["instruction_type"] == "OutOfServiceInstruction" and h.oos_instruction_accepted(mid, e["vehicle_id"])}
         yield from self.trip_ends(h, before, after, "in a step", told_oos)
         # interruption sweep: in every reached state every vehicle with passengers is told to stop (on the side)
         from nrel.hive.dispatcher.instruction.instructions import IdleInstruction
@@ -1031,6 +1032,47 @@ class C16Immutable(Monitor):
                 if hasattr(g, "emitted"):
                     g.emitted, g.seen = em, seen
 
+    def _what_if_sweep(self, h: History, saved, budget: int = 120) -> None:
+        """what-if exploration on the side, as a co-simulation client does between two uses of a saved state: from the
+        current state and from every other retained state, every vehicle is sent (one instruction at a time, result thrown
+        away) to stations, bases and waiting requests. None of it may influence what the saved state gives when stepped."""
+        from nrel.hive.dispatcher.instruction import instructions as I
+
+        n = 0
+        sources = [h.sim] + [s for s, _ in h.retained if s is not saved]
+        # first a burst of unrelated route planning (one vehicle repositioned to up to 48 different links of a street network) ...
+        links = getattr(getattr(h.sim.road_network, "link_helper", None), "links", None)
+        if links:
+            v0 = sorted(h.sim.vehicles.keys())[0]
+            for lid in sorted(links.keys())[:48]:
+                if h.dead:
+                    return
+                h.try_apply(h.sim, I.RepositionInstruction(v0, lid))
+                n += 1
+            budget += n
+        # ... then the targeted what-ifs
+        for src in sources:
+            targets = [("s", k) for k in sorted(src.stations.keys())] + [("b", k) for k in sorted(src.bases.keys())] + [("r", k) for k in sorted(src.requests.keys())[:6]]
+            for v in sorted(src.vehicles.values(), key=lambda x: x.id):
+                for kind, k in targets:
+                    if n >= budget or h.dead:
+                        h.stats["what_if_applications"] += n
+                        return
+                    if kind == "s":
+                        plugs = sorted(src.stations[k].state.keys())
+                        mech = h.env.mechatronics.get(v.mechatronics_id)
+                        ok = [c for c in plugs if mech is not None and mech.valid_charger(src.stations[k].state[c].charger)]
+                        if not ok:
+                            continue
+                        i = I.DispatchStationInstruction(v.id, k, ok[0])
+                    elif kind == "b":
+                        i = I.DispatchBaseInstruction(v.id, k)
+                    else:
+                        i = I.DispatchTripInstruction(v.id, k)
+                    h.try_apply(src, i)
+                    n += 1
+        h.stats["what_if_applications"] += n
+
     def on_retain(self, h: History) -> None:
         """called when a state is retained: remember what stepping it gives *now* (with the controllers' current queues)"""
         queues = [list(g.queue) for g in h.scripted]
@@ -1045,7 +1087,9 @@ class C16Immutable(Monitor):
         queues, first = self.first_result[k]
         if first is None:
             return
-        again = [self._step_saved(h, saved, queues) for _ in range(2)]
+        again = [self._step_saved(h, saved, queues)]
+        self._what_if_sweep(h, saved)  # a client exploring other states between two uses of the saved one
+        again.append(self._step_saved(h, saved, queues) if not h.dead else None)
         if again[0] is None or again[1] is None:
             return
         h.flag("branched")
@@ -1053,7 +1097,7 @@ class C16Immutable(Monitor):
         if int(h.sim.sim_time) > int(saved.sim_time):
             h.flag("branched_after_later_steps")
         if again[0] != again[1]:
-            yield Violation("C16", "stepping the same saved state twice gave different results", {"first_difference": first_diff(again[0], again[1])})
+            yield Violation("C16", "stepping the same saved state twice gave different results (other states were explored on the side in between)", {"first_difference": first_diff(again[0], again[1])})
         elif again[0] != first:
             yield Violation("C16", "stepping a saved state gives another result after the simulation has moved on", {"first_difference": first_diff(first, again[0]), "saved_at": int(saved.sim_time), "now": int(h.sim.sim_time)})
         yield from self._check_retained(h, "after stepping a saved state")
